@@ -44,6 +44,10 @@ def simulate(chk, shape, pend=0, max_polls=60, pair=False):
     F, R, S, B, ST = (t.struct_fields('gherkin::' + n) for n in ('Feature', 'Rule', 'Scenario', 'Background', 'Step'))
     find_body = [b for (st, m), lst in prog.by_method.items() if st == 'Collection' and m == 'find' for tr, b in lst][0]
     names = shape.step_names()
+    if pair:
+        # the second scenario's own steps: other step VALUES of the gherkin type (their keyword type may differ) with the same
+        # TEXT as the first scenario's - resolved on their own
+        names = names + ['t%d' % i for i in range(shape.steps)]
     # symbolic choices (decided by branching)
     findv = {n: z3.BitVec('find(%s)' % n, 64) for n in names}                    # 0 none, 1 ambiguous, 2 one
     kindv = {n: z3.BitVec('outcome(%s)' % n, 64) for n in names + ['before', 'after']}   # index into KINDS
@@ -161,7 +165,11 @@ def simulate(chk, shape, pend=0, max_polls=60, pair=False):
             return Adt('Option<gherkin::Background>', {(1, 0): Adt('gherkin::Background', {(None, B.index('steps')): Obj('vec', items=tuple(step_obj('%s%d' % (prefix, i)) for i in range(n)), ty='Vec<Step>')}, None, prefix + 'bg')}, 1)
         feat = Adt('gherkin::Feature', {(None, F.index('background')): bg('fb', shape.fbg)}, None, 'feat')
         rule = Adt('gherkin::Rule', {(None, R.index('background')): bg('rb', shape.rbg)}, None, 'rule')
-        scen = Adt('gherkin::Scenario', {(None, S.index('steps')): Obj('vec', items=tuple(step_obj('s%d' % i) for i in range(shape.steps)), ty='Vec<Step>')}, None, 'scn')
+        def own_step(i):
+            if not pair:
+                return step_obj('s%d' % i)
+            return Adt('gherkin::Step', {(None, ST.index('value')): Obj('symstr', name='text%d' % i)}, None, 's%d' % i)
+        scen = Adt('gherkin::Scenario', {(None, S.index('steps')): Obj('vec', items=tuple(own_step(i) for i in range(shape.steps)), ty='Vec<Step>')}, None, 'scn')
         fsrc = Adt('event::Source<gherkin::Feature>', {(None, 0): Ref(Cell(feat, name='feat'), (), pid=bv(0x101))})
         rsrc = Adt('event::Source<gherkin::Rule>', {(None, 0): Ref(Cell(rule, name='rule'), (), pid=bv(0x201))})
         ssrc = Adt('event::Source<gherkin::Scenario>', {(None, 0): Ref(Cell(scen, name='scn'), (), pid=bv(0x301))})
@@ -210,7 +218,12 @@ def simulate(chk, shape, pend=0, max_polls=60, pair=False):
             # way execute() drives the members of its FuturesUnordered on one thread
             ex_.env['panic_hook'] = 'outer'
             args2 = list(args)
-            scen2 = Adt('gherkin::Scenario', {(None, S.index('steps')): Obj('vec', items=tuple(step_obj('s%d' % i) for i in range(shape.steps)), ty='Vec<Step>')}, None, 'scn2')
+
+            def twin(i):
+                # same text as s<i> (the very same string value), everything else its own
+                own = ex_.materialize(ex_.field_of(scen.fields[(None, S.index('steps'))].items[i], None, ST.index('value'), 'String'))
+                return Adt('gherkin::Step', {(None, ST.index('value')): own}, None, 't%d' % i)
+            scen2 = Adt('gherkin::Scenario', {(None, S.index('steps')): Obj('vec', items=tuple(twin(i) for i in range(shape.steps)), ty='Vec<Step>')}, None, 'scn2')
             args2[rp['scenario']] = Adt('event::Source<gherkin::Scenario>', {(None, 0): Ref(Cell(scen2, name='scn2'), (), pid=bv(0x302))})
             args2[rp['id']] = Lazy('ScenarioId', 'sid2')
             co2 = ex_.call_body(run_sc, args2)
@@ -268,6 +281,16 @@ def simulate(chk, shape, pend=0, max_polls=60, pair=False):
 def timeline(ex, M, ix, log):
     """plain tuples: ('ev', kind..., retries) for events sent, ('call', what, world, counter, extra), ('created', id), ('caught', what) ..."""
     tl = []
+
+    def cd(v):
+        """the discriminant of a value on this path (decided by the solver when it is not a literal)"""
+        d = z3.simplify(M.discr(ex, v))
+        if z3.is_bv_value(d):
+            return d.as_long()
+        feas = [k_ for k_ in range(12) if ex.check(d == bv(k_))]
+        if len(feas) == 1:
+            return feas[0]
+        raise Inconclusive('discriminant of %r is not decided on this path (%s feasible)' % (v, feas))
     invS = {v: k for k, v in ix.Sc.items()}
     for e in log:
         k = e['kind']
@@ -289,16 +312,16 @@ def timeline(ex, M, ix, log):
                 # the finished-notification tuple (id, feature, rule, is_failed, is_retried)
                 tl.append(('notified', bool(z3.is_true(z3.simplify(v.fields[(None, 3)]))), bool(z3.is_true(z3.simplify(v.fields[(None, 4)])))))
                 continue
-            if z3.simplify(M.discr(ex, v)).as_long() != 0:
+            if cd(v) != 0:
                 tl.append(('ev', 'error'))
                 continue
             evv = ex.materialize(ex.field_of(v, 0, 0, 'event::Event<C>'))
             cu = ex.materialize(ex.field_of(evv, None, ix.EventValue, 'event::Cucumber<W>'))
-            if z3.simplify(M.discr(ex, cu)).as_long() != ix.Top['Feature']:
+            if cd(cu) != ix.Top['Feature']:
                 tl.append(('ev', 'other'))
                 continue
             fe = ex.materialize(ex.field_of(cu, ix.Top['Feature'], 1, 'event::Feature<W>'))
-            fd = z3.simplify(M.discr(ex, fe)).as_long()
+            fd = cd(fe)
             if fd == ix.Fe['Scenario']:
                 rs = ex.materialize(ex.field_of(fe, ix.Fe['Scenario'], 1, 'event::RetryableScenario<W>'))
             elif fd == ix.Fe['Rule']:
@@ -309,13 +332,13 @@ def timeline(ex, M, ix, log):
                 continue
             sev = ex.materialize(ex.field_of(rs, None, ix.RS['event'], 'event::Scenario<W>'))
             ret = ex.materialize(ex.field_of(rs, None, ix.RS['retries'], 'Option<event::Retries>'))
-            rd = z3.simplify(M.discr(ex, ret)).as_long()
+            rd = cd(ret)
             rr = None
             if rd == 1:
                 rv = ex.materialize(ex.field_of(ret, 1, 0, 'event::Retries'))
                 rr = (z3.simplify(ex.materialize(ex.field_of(rv, None, ix.Ret['current'], 'usize'), 'usize')).as_long(),
                       z3.simplify(ex.materialize(ex.field_of(rv, None, ix.Ret['left'], 'usize'), 'usize')).as_long())
-            sk = invS[z3.simplify(M.discr(ex, sev)).as_long()]
+            sk = invS[cd(sev)]
 
             def payload(p):
                 p = ex.materialize(p)
@@ -331,7 +354,7 @@ def timeline(ex, M, ix, log):
 
             def worldid(w):
                 w = ex.materialize(w)
-                if z3.simplify(M.discr(ex, w)).as_long() == 0:
+                if cd(w) == 0:
                     return None
                 a = ex.materialize(ex.field_of(w, 1, 0, 'Arc<W>'))
                 for _ in range(3):
@@ -341,9 +364,9 @@ def timeline(ex, M, ix, log):
             if sk in ('Started', 'Finished', 'Log'):
                 tl.append(('ev', sk, rr))
             elif sk == 'Hook':
-                ht = z3.simplify(M.discr(ex, ex.field_of(sev, ix.Sc['Hook'], 0, 'HookType'))).as_long()
+                ht = cd(ex.field_of(sev, ix.Sc['Hook'], 0, 'HookType'))
                 hv = ex.materialize(ex.field_of(sev, ix.Sc['Hook'], 1, 'event::Hook<W>'))
-                hk = {v: k for k, v in ix.Hook.items()}[z3.simplify(M.discr(ex, hv)).as_long()]
+                hk = {v: k for k, v in ix.Hook.items()}[cd(hv)]
                 if hk == 'Failed':
                     tl.append(('ev', 'Hook', 'Before' if ht == 0 else 'After', hk, rr, worldid(ex.field_of(hv, ix.Hook['Failed'], 0, 'Option<Arc<W>>')), payload(ex.field_of(hv, ix.Hook['Failed'], 1, 'Info'))))
                 else:
@@ -353,10 +376,10 @@ def timeline(ex, M, ix, log):
                 c_, p_ = ex.deref(stp)
                 sname = ex.read_path(c_, p_).name
                 sv = ex.materialize(ex.field_of(sev, ix.Sc[sk], 1, 'event::Step<W>'))
-                stk = {v: k for k, v in ix.Step.items()}[z3.simplify(M.discr(ex, sv)).as_long()]
+                stk = {v: k for k, v in ix.Step.items()}[cd(sv)]
                 if stk == 'Failed':
                     errv = ex.materialize(ex.field_of(sv, ix.Step['Failed'], 3, 'event::StepError'))
-                    ek = {v: k for k, v in ix.Err.items()}[z3.simplify(M.discr(ex, errv)).as_long()]
+                    ek = {v: k for k, v in ix.Err.items()}[cd(errv)]
                     pl = payload(ex.field_of(errv, ix.Err[ek], 0, 'Info')) if ek != 'NotFound' else None
                     tl.append(('ev', sk, sname, stk, rr, ek, pl, worldid(ex.field_of(sv, ix.Step['Failed'], 2, 'Option<Arc<W>>'))))
                 else:
